@@ -27,6 +27,9 @@ func visited[K comparable, V any](m map[K]V, k K) bool { return true }
 // iterStart(e): value of e in the heap as it was when the current loop iteration began (ghost, loop clauses only).
 func iterStart[T any](x T) T { return x }
 
+// holdsNonNil(x): the interface value x is nil or holds a non-nil pointer (never a typed nil pointer) (ghost).
+func holdsNonNil(x any) bool { return true }
+
 // lastBool(callee): boolean result of the most recent call of that callee in the function being verified (ghost).
 func lastBool(callee string) bool { return true }
 
